@@ -139,7 +139,7 @@ def mutator_table(rep, kind, k):
     else:
         new = (at.var("nt"), raw_label("new"))
     tr = TableRun(rep, "I-mutators", fn.short, fn.loc)
-    modes = [(c, r) for c in ("error", "replace", "merge") for r in ("silence",)]
+    modes = [(c, r) for c in ("error", "replace", "merge") for r in ("silence", "error")]
 
     def rows(st):
         out = []
